@@ -111,6 +111,12 @@ def predict(spec2, opts, rec_in, rec_out):
                     info['fallback'] += 1
                 why.append('recorded' if hit == names[0] else 'fallback')
                 out = rec_in[(hit, cap)]
+                if st[4] == 'restore_raises' and ispec.handler and out[0] != 'raise':
+                    # the entry is there but the data handler fails to restore it: that failure reaches the caller, it is not
+                    # a missing entry (no policy applies)
+                    why[-1] = 'restore-raises'
+                    obs.append(['in', ispec.alias, 'raised', 'RuntimeError'])
+                    continue
             else:
                 info['absent'] += 1
                 if opt.run_original:
@@ -504,6 +510,11 @@ def random_pair(tape, clock, debug=False):
                 o.fallback_kind = tape.choice(['list', 'fn'])
                 o.fallback_names = [j.alias] + ([n for n in o.fallback_names if n != '<old>'])
                 run.probe('fallback_to_other_recorded_alias')
+    if tape.draw(4) == 3:
+        cands = [st for st in spec2.body if st[0] == 'in' and spec2.inputs[st[1]].handler and st[4] is None]
+        if cands:
+            tape.choice(cands)[4] = 'restore_raises'
+            run.probe('input_handler_fails_to_restore_in_replay')
     store = C.gen_store(tape, clock)
     try:
         execute(run, tape, clock, spec, spec2, opts, bool(tape.draw(2)), 1 + tape.draw(3), store, 'random')
